@@ -323,6 +323,7 @@ func c04RealDlg(iss, aud, sub, win int) *delegation.Token {
 type c04RealCase struct {
 	Wins []int `json:"wins"`
 	Inv  int   `json:"inv"` // 0 none, 1 expired, 3 valid
+	Iat  int   `json:"iat"` // issue time of the invocation: 0 absent, 1 now (constructor default), 2 twenty years ago, 3 in twenty years
 }
 
 func (c *c04RealCase) Weight() int { return len(c.Wins) }
@@ -330,16 +331,18 @@ func (c *c04RealCase) Weight() int { return len(c.Wins) }
 func c04RealSub(name, dir string, qn, tn int) *engine.Sub {
 	return &engine.Sub{
 		Name: name,
-		Rule: "real ExecutionAllowed (wall clock) with every assignment of {no bound, expired 10y ago, active in 10y, [-10y,+10y]} to each link and {none, expired, valid} to the invocation; verdict cannot depend on when the check runs; non-trivial = exactly one invalid element or none",
-		Bound: func(t string) string { return fmt.Sprintf("chains of 1..%d links, 4 windows per link, 3 invocation settings", tierN(t, qn, tn)) },
+		Rule: "real ExecutionAllowed (wall clock) with every assignment of {no bound, expired 10y ago, active in 10y, [-10y,+10y]} to each link and {none, expired, valid} to the invocation, whose issue time (iat) is absent, now, 20 years ago or in 20 years (it is not a validity bound and must not move the instant of the check); verdict cannot depend on when the check runs; non-trivial = exactly one invalid element or none",
+		Bound: func(t string) string { return fmt.Sprintf("chains of 1..%d links, 4 windows per link, 3 invocation expiry settings x 4 issue times", tierN(t, qn, tn)) },
 		Setup: func(string) error { chainInit(); return nil },
 		Gen: func(tier string, emit func(any) bool) {
 			for n := 1; n <= tierN(tier, qn, tn); n++ {
 				idx := make([]int, n)
 				for {
 					for _, iv := range []int{0, 1, 3} {
-						if !emit(&c04RealCase{Wins: append([]int{}, idx...), Inv: iv}) {
-							return
+						for iat := 0; iat < 4; iat++ {
+							if !emit(&c04RealCase{Wins: append([]int{}, idx...), Inv: iv, Iat: iat}) {
+								return
+							}
 						}
 					}
 					i := n - 1
@@ -385,7 +388,16 @@ func c04RealSub(name, dir string, qn, tn int) *engine.Sub {
 					}
 				}
 			}
-			opts := []invocation.Option{invocation.WithNonce(fixedNonce), invocation.WithoutInvokedAt()}
+			opts := []invocation.Option{invocation.WithNonce(fixedNonce)}
+			// the issue time is not a validity bound: the check happens now, whatever the invoker wrote into iat
+			switch cs.Iat {
+			case 0:
+				opts = append(opts, invocation.WithoutInvokedAt())
+			case 2:
+				opts = append(opts, invocation.WithInvokedAtIn(-2*c04TenYears))
+			case 3:
+				opts = append(opts, invocation.WithInvokedAtIn(2*c04TenYears))
+			}
 			switch cs.Inv {
 			case 1:
 				opts = append(opts, invocation.WithExpirationIn(-c04TenYears))
@@ -410,10 +422,10 @@ func c04RealSub(name, dir string, qn, tn int) *engine.Sub {
 			ctx.Outcome(errLabel(e1))
 			for _, e := range []error{e1, e2} {
 				if dir == "sound" && e == nil && invalid > 0 {
-					ctx.Failf(cs, "real-clock/time-not-enforced@"+where, "ExecutionAllowed allowed a chain whose %s is expired / not yet active (wins=%v inv=%d)", where, cs.Wins, cs.Inv)
+					ctx.Failf(cs, "real-clock/time-not-enforced@"+where, "ExecutionAllowed allowed a chain whose %s is expired / not yet active (wins=%v inv=%d iat=%d)", where, cs.Wins, cs.Inv, cs.Iat)
 				}
 				if dir == "complete" && e != nil && invalid == 0 {
-					ctx.Failf(cs, "real-clock/denied-valid:"+errLabel(e), "ExecutionAllowed denied a chain whose tokens are all valid now (wins=%v inv=%d): %v", cs.Wins, cs.Inv, e)
+					ctx.Failf(cs, "real-clock/denied-valid:"+errLabel(e), "ExecutionAllowed denied a chain whose tokens are all valid now (wins=%v inv=%d iat=%d): %v", cs.Wins, cs.Inv, cs.Iat, e)
 				}
 			}
 		},
